@@ -120,6 +120,26 @@ def one_program(ctx, script, rng, settings_list):
         _build_and_compare(ctx, script, reordered, n_eq, rng, settings_list[:1], dict(case, symbol_order='verbatim-first-rest-reversed'))
 
 
+    # one equation switched off by hand (`equation` blanked, `code` left behind): a symbol without an equation contributes its
+    # variable but no code - the converter is not called for it and nothing of it reaches _evaluate()
+    carriers = [i for i, s in enumerate(symbols) if s.equation is not None and s.code is not None and s.type.name in ('ENDOGENOUS', 'VERBATIM')]
+    if carriers:
+        k = carriers[len(script) % len(carriers)]
+        off = [s._replace(equation=None) if i == k else s for i, s in enumerate(symbols)]
+        ctx.count('symbol_lists_with_an_equation_switched_off')
+        c3 = dict(case, symbol_order=f'equation of symbol #{k} blanked')
+        _build_and_compare(ctx, script, off, n_eq - 1, rng, settings_list[:1], c3)
+        try:
+            text = fsic.build_model_definition(off)
+        except Exception as e:
+            ctx.violation('build-raises', f'building with the equation of {symbols[k].name!r} blanked raised {type(e).__name__}: {str(e)[:200]}', c3)
+            return
+        code_k = textwrap.indent(symbols[k].code, '        ')
+        others = [textwrap.indent(s.code, '        ') for i, s in enumerate(off) if i != k and s.equation is not None and s.code is not None]
+        if code_k in text and not any(code_k in o for o in others) and symbols[k].code.strip() != 'pass':      # (`pass` is what an empty body holds anyway)
+            ctx.violation('symbols-without-equations', f'symbol {symbols[k].name!r} has no equation (blanked) yet its code {symbols[k].code!r} is in the definition', c3)
+
+
 def _build_and_compare(ctx, script, symbols, n_eq, rng, settings_list, case):
     import fsic
     for kw in settings_list:
